@@ -54,7 +54,7 @@ func run(c *Ctx) error {
 func oneRun(c *Ctx, seed int64) (bool, error) {
 	r := rand.New(rand.NewSource(seed))
 	topo := agenth.RandomTopology(r)
-	renom := r.Intn(10) < 3
+	renom := r.Intn(10) < 4
 	sameRole := r.Intn(100) < 15
 	mk := func(lu int, tb uint64, ren bool) agenth.Config {
 		return agenth.Config{MaxReq: -1, Disc: -1, Failed: -1, Keepalive: -1, WaitHost: 0, WaitSrflx: 0, WaitPrflx: 0, WaitRelay: 0,
@@ -81,6 +81,23 @@ func oneRun(c *Ctx, seed int64) (bool, error) {
 	}
 	defer sb.Close()
 	p := agenth.NewPair(r, sa, sb, topo)
+	victim := false
+	if renom && r.Intn(2) == 0 {
+		// B's first few checks towards one bidirectionally reachable endpoint pair are lost
+		var cand [][2]int
+		for i := range topo.Reach {
+			for j := range topo.Reach[i] {
+				if topo.Reach[i][j] && topo.Back[j][i] {
+					cand = append(cand, [2]int{i, j})
+				}
+			}
+		}
+		if len(cand) > 0 {
+			ij := cand[r.Intn(len(cand))]
+			p.SetVictim(1, ij[1], ij[0], 2+r.Intn(3))
+			victim = true
+		}
+	}
 	roleA, roleB := true, false
 	if sameRole {
 		roleB = true
@@ -178,6 +195,10 @@ func oneRun(c *Ctx, seed int64) (bool, error) {
 	}
 	if p.RenomLost {
 		tag += ",renom_lost"
+	}
+	if victim {
+		tag += ",victim"
+		c.Count("run:selective_loss_of_B_requests_on_one_pair")
 	}
 	c.Count("run:" + tag)
 	c.Count(fmt.Sprintf("run:lossy_rounds=%d", lossy))
